@@ -1351,7 +1351,9 @@ class QuadraticForm(Expression):
 
         # Gradient of x'Qx w.r.t. x is (Q + Q.T) @ x
         # For each variable x[i], the gradient is sum_j (Q[i,j] + Q[j,i]) * x[j]
-        Q_plus_QT = self.matrix + self.matrix.T
+        # (summed in floating point: a boolean matrix would OR, uint8 would wrap)
+        Q = np.asarray(self.matrix, dtype=np.float64)
+        Q_plus_QT = Q + Q.T
 
         # Build mapping from our vector's variables to their indices
         var_to_idx: dict[Variable, int] = {v: i for i, v in enumerate(vec_vars)}
